@@ -38,7 +38,22 @@ func main() {
 		ctx.childOut = bufio.NewWriterSize(os.Stdout, 1<<16)
 		limitMemory()
 	}
-	switch *prop {
+	runProp(ctx)
+	// the thorough tier repeats the generated part under further seeds derived from the
+	// first (different run-time types, values and histories); C04 is one long round
+	if ctx.Tier == "thorough" && childStart < 0 && ctx.Replay == "" && ctx.Prop != "C04" {
+		for round := 1; round < 3; round++ {
+			ctx.rng = newRNG(uint64(*seed) + 7919*uint64(round))
+			ctx.count(fmt.Sprintf("thorough_round_%d", round))
+			runProp(ctx)
+		}
+	}
+	ctx.runWitnesses()
+	ctx.finish()
+}
+
+func runProp(ctx *Ctx) {
+	switch ctx.Prop {
 	case "C18":
 		runC18(ctx)
 	case "C01":
@@ -80,9 +95,7 @@ func main() {
 	case "C14":
 		runC14(ctx)
 	default:
-		fmt.Fprintln(os.Stderr, "unknown property", *prop)
+		fmt.Fprintln(os.Stderr, "unknown property", ctx.Prop)
 		os.Exit(2)
 	}
-	ctx.runWitnesses()
-	ctx.finish()
 }
